@@ -52,11 +52,11 @@ fn main() {
         name: "w1x",
         run,
         properties: vec![
-            p("C07", 40_000, 1_500_000, "one run = 1-3 NTS sources (v4/v5, AES-SIV-CMAC-256/512) polling the real Server or a key-holding byzantine server over a faulty network with an on-path adversary; every datagram delivered to a source is classified by provenance (simulator ground truth + own extension-field walker) and the probe view is compared before/after"),
-            p("C13", 40_000, 1_500_000, "as C07; a FIFO-of-8-newest model of the cookie stash is driven by the ground-truth cookies of accepted responses and compared with every request (cookie, placeholder count) and with the probe's stash contents"),
+            p("C07", 200_000, 1_500_000, "one run = 1-3 NTS sources (v4/v5, AES-SIV-CMAC-256/512) polling the real Server or a key-holding byzantine server over a faulty network with an on-path adversary; every datagram delivered to a source is classified by provenance (simulator ground truth + own extension-field walker) and the probe view is compared before/after"),
+            p("C13", 200_000, 1_500_000, "as C07; a FIFO-of-8-newest model of the cookie stash is driven by the ground-truth cookies of accepted responses and compared with every request (cookie, placeholder count) and with the probe's stash contents"),
             c14,
-            p("C33", 12_000, 1_000_000, "one run = 1-3 daemon-core nodes (real NtpManager + real plain NtpSources + real Server on the same manager) in pairs/rings/self-loops plus a stratum-1 server, byzantine servers and dead addresses; the usable flag of every set_usable call and every published NtpSnapshot are recomputed from the statement"),
-            p("C34", 10_000, 1_000_000, "as C33 biased to NTPv5 sources with chunk sizes {4..512} over a lossy/duplicating/reordering/damaging network and byzantine chunk answers; transfer state compared before/after every event, complete filters compared with the serving node's published filter, every real-server chunk answer compared with its filter"),
+            p("C33", 60_000, 1_000_000, "one run = 1-3 daemon-core nodes (real NtpManager + real plain NtpSources + real Server on the same manager) in pairs/rings/self-loops plus a stratum-1 server, byzantine servers and dead addresses; the usable flag of every set_usable call and every published NtpSnapshot are recomputed from the statement"),
+            p("C34", 50_000, 1_000_000, "as C33 biased to NTPv5 sources with chunk sizes {4..512} over a lossy/duplicating/reordering/damaging network and byzantine chunk answers; transfer state compared before/after every event, complete filters compared with the serving node's published filter, every real-server chunk answer compared with its filter"),
         ],
         real_components: &[
             "ntp_proto::NtpSource (handle_timer, handle_incoming, process_message) for NTS v4/v5 and plain v4/upgrade/v5",
